@@ -381,6 +381,8 @@ func ruleLockset(c *Ctx) []Obligation {
 	}
 	obs = append(obs, lsCoreIdentity(c)...)
 	obs = append(obs, lsSpawnClone(c)...)
+	// read-modify-write under a lock reads inside the critical section (rules_r6rt.go)
+	obs = append(obs, r6rtAtomicUpdates(c)...)
 	return obs
 }
 
